@@ -85,5 +85,17 @@ def handle : List String → Option String
       match parseList? parseRat? w, parseNat? n, parseList? parseRat? us with
       | some w, some n, some us => showNats (simulateBinary w n us)
       | _, _, _ => "bad-op")
+  | ["c20_locate", bounds, pts] => some (
+      -- bounds: `w,s,e,n;w,s,e,n;…`, points: `lon,lat;lon,lat;…` (exact rationals); answer: the cell of every point in
+      -- storage order, `x` for a point no cell holds
+      match parseList2? parseRat? bounds, parseList2? parseRat? pts with
+      | some bs, some ps =>
+        match bs.mapM (fun b => match b with | [w, s, e, n] => some (Box.mk w s e n) | _ => none),
+              ps.mapM (fun p => match p with | [lon, lat] => some (lon, lat) | _ => none) with
+        | some boxes, some points =>
+          showList (fun (o : Option Nat) => match o with | some i => toString i | none => "x")
+            (points.map (fun p => findLocation boxes p.1 p.2))
+        | _, _ => "bad-op"
+      | _, _ => "bad-op")
   | _ => none
 end Drive.C20
